@@ -123,11 +123,13 @@ impl<T> Vec<T> {
             // safety: `location.bucket` is always in bounds
             #[cfg(nucleo_verif)]
             crate::verif::point("get.load_entries", index as u64);
+            // Acquire: the entries (their `active` flags) are initialised by the
+            // thread that published the bucket pointer
             let entries = self
                 .buckets
                 .get_unchecked(location.bucket as usize)
                 .entries
-                .load(Ordering::Relaxed);
+                .load(Ordering::Acquire);
 
             // bucket is uninitialized
             if entries.is_null() {
@@ -403,12 +405,13 @@ impl<'v, T> Iterator for Iter<'v, T> {
         loop {
             #[cfg(nucleo_verif)]
             crate::verif::point("iter.load_entries", self.idx as u64);
+            // Acquire: see `Vec::get`
             let entries = unsafe {
                 self.vec
                     .buckets
                     .get_unchecked(self.location.bucket as usize)
                     .entries
-                    .load(Ordering::Relaxed)
+                    .load(Ordering::Acquire)
             };
             debug_assert!(self.location.bucket < BUCKETS);
 
